@@ -3,7 +3,9 @@
 package mon
 
 import (
+	"fmt"
 	"hash/fnv"
+	"os"
 	"math/rand"
 	"runtime"
 	"sync"
@@ -52,7 +54,12 @@ func Begin(seed int64, level int) *Tracer {
 // End removes the tracer; late events from leaked goroutines are dropped.
 func End() { cur.Store(nil) }
 
+var traceOut = os.Getenv("VERIF_TRACE") != ""
+
 func (t *Tracer) hit(point string, a, b int64) {
+	if traceOut {
+		fmt.Fprintf(os.Stderr, "HOOK %s %d %d\n", point, a, b)
+	}
 	t.mu.Lock()
 	if len(t.events) < 4096 {
 		t.events = append(t.events, Ev{point, a, b})
